@@ -105,14 +105,14 @@ pub struct RcCase {
     pub code: usize,
     pub codeword: usize,
     pub noise_seed: u64,
-    /// noise standard deviation relative to the BPSK amplitude
+    /// noise standard deviation relative to the code's approximate decoding threshold
     pub sigma: Fx,
     pub limit: usize,
     pub frames: usize,
 }
 
 pub fn strategy(_t: Tier) -> BoxedStrategy<RcCase> {
-    (0usize..4, 0usize..4, any::<u64>(), prop_oneof![3 => 0.55f64..1.0, 1 => 0.2f64..0.55, 1 => 1.0f64..2.0], prop_oneof![Just(0usize), Just(1), Just(5), Just(20), Just(50)], 1usize..=3)
+    (0usize..4, 0usize..4, any::<u64>(), prop_oneof![4 => 0.8f64..1.1, 1 => 0.3f64..0.8, 1 => 1.1f64..2.0], prop_oneof![Just(0usize), Just(1), Just(5), Just(20), Just(50)], 1usize..=3)
         .prop_map(|(code, codeword, noise_seed, sigma, limit, frames)| RcCase { code, codeword, noise_seed, sigma: Fx(sigma), limit, frames })
         .boxed()
 }
@@ -120,7 +120,14 @@ pub fn strategy(_t: Tier) -> BoxedStrategy<RcCase> {
 /// deterministic Gaussian noise (Box-Muller over splitmix64)
 pub fn llrs_for(rc: &RealCode, case: &RcCase, frame: usize) -> Vec<f64> {
     let cw = &rc.codewords[case.codeword % rc.codewords.len()];
-    let sigma = case.sigma.0;
+    // approximate threshold sigma of each code (BPSK amplitude 1)
+    let threshold = match rc.name {
+        "dvbs2-1/2-short" => 0.85,
+        "dvbs2-8/9-short" => 0.46,
+        "ar4ja-1/2-k1024" => 0.84,
+        _ => 0.60,
+    };
+    let sigma = case.sigma.0 * threshold;
     let mut s = splitmix(case.noise_seed ^ (frame as u64).wrapping_mul(0x9E37_79B9));
     let mut next = || {
         s = splitmix(s);
